@@ -33,7 +33,9 @@ RULE = (
     "BIP85 applications against HMAC-SHA512 of the BIP32 model's child key. Oracles are spec transcriptions in vlib/models/{bip39,electrum,slip39,bip85}_ref.py."
 )
 ASSUMPTIONS = [
-    "word-list files under btclib/mnemonic/_data are data, not code under test: the models read the same files",
+    "the models read their own copies of the word lists (vectors/wordlists, pinned by digest; english.txt against the digest bitcoin/bips publishes): a word list the library ships is under test like its code",
+    "letter case of SLIP39 words, which mis-typed Electrum spellings decode, Electrum's two-factor seed types, the order in which dispatch lists the schemes and where in its stream of random bytes a SLIP39 split "
+    "takes the identifier from are not stated by the property or the specifications: either behaviour is accepted, and what is answered is compared with the model",
     "bip39_ref/electrum_ref/slip39_ref/bip85_ref are validated at start on Trezor's BIP39 vectors (12 languages, 288 cases) and bip32JP's Japanese vectors, "
     "Electrum's SEED_TEST_CASES / Test_seeds / old-seed wallets, Trezor's 45 SLIP39 vectors, and BIP85's own vectors (copies in /verif/vectors)",
     "Electrum has no specification: its code (normalize_text, seed_type, make_seed, old_mnemonic) as transcribed in electrum_ref.py is taken as the definition",
@@ -98,6 +100,10 @@ def _vec(name):
 
 
 def validate_models() -> None:
+    try:
+        b39.check_word_files()
+    except ValueError as e:
+        raise HarnessError(str(e)) from None
     name2code = {"english": "en", "chinese_simplified": "zh", "chinese_traditional": "zh_tw", "czech": "cs", "french": "fr", "italian": "it", "japanese": "ja",
                  "korean": "ko", "portuguese": "pt", "spanish": "es", "russian": "ru", "turkish": "tr"}
     tv = _vec("bip39_trezor_vectors.json")
@@ -296,10 +302,11 @@ def expected_dispatch(sentence: str, lang: str) -> list[str]:
 def check_dispatch(sentence: str, lang: str, where: str) -> None:
     want = expected_dispatch(sentence, lang)
     got = dispatch.all_seed_types_from_mnemonic(sentence, lang)
-    if got != want:
+    # which schemes claim the sentence is the specifications' question; the order they are listed in is the library's
+    if sorted(got) != sorted(want):
         raise Violation(f"dispatch:{where}:lib={'+'.join(got) or 'none'}:ref={'+'.join(want) or 'none'}", f"{sentence!r} lang={lang}")
     first = dispatch.seed_type_from_mnemonic(sentence, lang)
-    if first != (want[0] if want else ""):
+    if first not in (want or [""]):
         raise Violation(f"dispatch:{where}:first", f"{sentence!r} -> {first!r}")
 
 
@@ -423,10 +430,9 @@ def check_bip39(case):
     if verdict == "ok":
         seed = bip39.seed_from_mnemonic(shown, pw_shown)
     else:
-        try:
-            bip39.seed_from_mnemonic(shown, pw_shown)
-            raise Violation("bip39:seed:ambiguous-language-answered", shown)
-        except BTClibValueError:
+        # valid under two lists with two entropies: the seed is the same whichever list is meant (it is stretched from the sentence), so a refusal and the seed are both right
+        seed, err = lib_try(bip39.seed_from_mnemonic, shown, pw_shown)
+        if seed is None:
             seed = bip39.seed_from_mnemonic(shown, pw_shown, verify_checksum=False)
     if seed != want_seed:
         raise Violation(f"bip39:seed-differs:{'passphrase-normalization' if nfkd(pw_shown) != pw_shown else ('sentence-normalization' if shown != canonical else 'plain')}", f"lang={lang} {shown!r} pass={pw_shown!r} lib={seed.hex()} ref={want_seed.hex()}")
@@ -548,6 +554,15 @@ def check_ambiguous(case):
             got, err = lib_try(bip39.entropy_from_mnemonic, s, l)
             if (got is None) != (model is None) or (model is not None and got != binstr(model)):
                 raise Violation("bip39:explicit-language-verdict", f"{s!r} lang={l} lib={got} ref={model and model.hex()}")
+        # the seed gate: no seed for a sentence whose checksum holds under no list; otherwise the seed of the sentence (for two entropies, that or a refusal)
+        seed, err = lib_try(bip39.seed_from_mnemonic, s, "")
+        if kind == "neither":
+            if seed is not None:
+                raise Violation("bip39:seed:invalid-checksum-answered", s)
+        elif (seed is None and kind != "both-different") or (seed is not None and seed != b39.seed(s, "")):
+            raise Violation(f"bip39:seed:{kind}:lib={'refused' if seed is None else 'answered'}", f"{s!r} {err}")
+        if bip39.seed_from_mnemonic(s, "", verify_checksum=False) != b39.seed(s, ""):
+            raise Violation("bip39:seed-differs:unverified", s)
         tags.append(kind)
     return Outcome(bool(found["both-different"] or found["both-same"]), tuple(tags) + (f"{a}-{b}",))
 
@@ -739,7 +754,8 @@ def check_electrum(case):
         wx = electrum_xprv(want_seed, t, case["net"])
         if got != wx:
             raise Violation(f"electrum:mxprv-differs:{t}", f"{mut!r} net={case['net']}: lib={got} {err} ref={wx}")
-    elif err is None:
+    elif err is None and t in ("", "old"):
+        # (the two-factor types are documented as not derived here; a library that learns them is none of this property's business)
         raise Violation(f"electrum:mxprv:answered-for:{t or 'unversioned'}", f"{mut!r} -> {got}")
     # decoding what was typed: electrum's mnemonic_decode of the NFKD lower-cased words
     got, err = lib_try(electrum.entropy_from_mnemonic, mut, lang)
@@ -750,8 +766,13 @@ def check_electrum(case):
             want_i = el.mnemonic_decode(nfkd(mut).lower(), lang)
         except KeyError:
             want_i = None
-    if (got is None) != (want_i is None) or (want_i is not None and int(got, 2) != want_i):
+    # a sentence without a version prefix is refused; the sentence as it was made decodes to its entropy; how many mis-typed spellings a decoder forgives is its
+    # own choice, but what it answers for one is the entropy of the words electrum reads there
+    strict = t in ("", "old") or mut == m
+    if ((got is None) != (want_i is None) and strict) or (got is not None and want_i is not None and int(got, 2) != want_i):
         raise Violation(f"electrum:decode-typed:lib={'refused' if got is None else 'answered'}:ref={'refused' if want_i is None else 'answered'}", f"{mut!r} lang={lang}: lib={got} {err} ref={want_i}")
+    if (got is None) != (want_i is None):
+        tags.append("typed-decode:lib=" + ("refused" if got is None else "answered"))
     check_dispatch(m, lang, "electrum")
     if case["mut"] in ("hex-words", "old-words", "subst"):
         check_dispatch(mut, lang, "electrum-mutated")
@@ -787,7 +808,9 @@ def check_old(case):
         sentence = " ".join(ow[i] for i in case["idx"][: case["n"]])
     else:
         hx = {"hex32": case["hex"][:32], "hex64": case["hex"], "hex-other": (case["hex"] * 2)[: 8 * case["groups"]]}[kind]
-        enc = electrum.old_mnemonic_from_hex_seed(hx)
+        enc, err = lib_try(electrum.old_mnemonic_from_hex_seed, hx)
+        if enc is None and kind == "hex-other":
+            return Outcome(False, ("hex-other-refused",))  # only the 128- and 256-bit seeds are Electrum's own; other multiples of 32 bits are the encoder's to take or leave
         if enc != " ".join(el.mn_encode(hx)):
             raise Violation("electrum-old:encode-differs", f"{hx} -> {enc!r}")
         if electrum.old_mnemonic_from_hex_seed(hx.upper()) != enc:
@@ -885,10 +908,15 @@ def slip39_high_e_case():
     return _SLIP39[(2, 4)]
 
 
-def make_split(case, secret: bytes, rnd_seed: int, first: bytes = b""):
-    """-> list of groups, each {"GI", "MT", "members": [(MI, mnemonic)]}, made by the library or by the model (arbitrary indexes)."""
+def make_split(case, secret: bytes, rnd_seed: int, first: bytes = b"", identifier=None):
+    """-> list of groups, each {"GI", "MT", "members": [(MI, mnemonic)]}, made by the library or by the model (arbitrary indexes).
+    With an identifier given, the model makes the split under it with the indexes a library split has (0, 1, 2, ...)."""
     groups, gt = case["groups"], case["gt"]
     rnd = Rnd(rnd_seed, first)
+    if identifier is not None:
+        spec = [{"GI": gi, "MT": g[0], "MIs": list(range(g[1]))} for gi, g in enumerate(groups)]
+        mns = s39.generate(secret, case["pass"], case["e"], identifier, case["ext"], gt, spec, rnd, group_count=len(groups))
+        return [{"GI": sp["GI"], "MT": sp["MT"], "members": list(zip(sp["MIs"], ms))} for sp, ms in zip(spec, mns)]
     if case["arm"] == "lib-split":
         mns = slip39.mnemonics_from_master_secret(secret, [tuple(g) for g in groups], gt, case["pass"], case["e"], case["ext"], rnd)
         if len(mns) != len(groups) or any(len(ms) != g[1] for ms, g in zip(mns, groups)):
@@ -968,8 +996,6 @@ def check_slip39(case):
     pw, fault = case["pass"], case["fault"]
     split = make_split(case, secret, case["rnd"])
     identifier = check_share_fields(split, case, len(secret))
-    if case["arm"] == "lib-split" and identifier != int.from_bytes(Rnd(case["rnd"])(2), "big") & 0x7FFF:
-        raise Violation("slip39:generate:identifier-not-from-entropy-source", str(identifier))
     p = Picker(case["pick"], "subset")
     chosen = p.sample(list(range(len(split))), case["gt"])
     picked = {gi: p.sample(split[gi]["members"], split[gi]["MT"]) for gi in chosen}
@@ -1046,7 +1072,8 @@ def check_slip39(case):
             other = bytes(x ^ 0x5A for x in secret)
             first = Rnd(case["rnd"])(2) if fault == "mixed-same-id" else b""
             case_b = dict(case, pick=case["pick"])  # same configuration and indexes, other coefficients
-            split_b = make_split(case_b, other, case["rnd"] + 1, first)
+            # (a library split under the same identifier is made by the model: where in its stream of random bytes a library takes the identifier from is its own affair)
+            split_b = make_split(case_b, other, case["rnd"] + 1, first, identifier if fault == "mixed-same-id" and case["arm"] == "lib-split" else None)
             gi = chosen[p.below(len(chosen))]
             mi, m = picked[gi][p.below(len(picked[gi]))]
             mb = dict(split_b[gi]["members"])[mi]
@@ -1139,7 +1166,8 @@ def check_slip39_refusal(case):
 
 # ---------------------------------------------------------------- the share codec on arbitrary fields
 def _codec_fix(d):
-    d["G"] = min(16, d["GT"] + d.pop("G_extra"))
+    # the group count covers the threshold and the share's own group index (SLIP-0039 is silent on an index beyond the count: not generated)
+    d["G"] = min(16, max(d["GT"], d["GI"] + 1) + d.pop("G_extra"))
     return d
 
 
@@ -1164,8 +1192,7 @@ def check_codec(case):
     p = Picker(case["sel"], "codec")
     mut = case["mut"]
     m = s39.encode_share(sh)
-    share = slip39.Share(sh["id"], sh["ext"], sh["e"], sh["GI"], sh["GT"], sh["G"], sh["MI"], sh["MT"], sh["value"])
-    enc = slip39.mnemonic_from_share(share)
+    enc, err = lib_try(lambda: slip39.mnemonic_from_share(slip39.Share(sh["id"], sh["ext"], sh["e"], sh["GI"], sh["GT"], sh["G"], sh["MI"], sh["MT"], sh["value"])))
     if enc != m:
         raise Violation("slip39:codec:encode-differs", f"{sh} lib={enc!r} ref={m!r}")
     words = m.split()
@@ -1201,7 +1228,7 @@ def check_codec(case):
     elif mut == "ws":
         t = present(words, "ws-edges", case["sel"])
     elif mut == "foreign-word":
-        words[p.below(len(words))] = ["abandon", "zoo", "", "acid1", "ACADEMIC"][p.below(5)] or "x"
+        words[p.below(len(words))] = ["abandon", "zoo", "", "acid1", "zzzz"][p.below(5)] or "x"
         t = " ".join(words)
     else:
         t = m
@@ -1213,6 +1240,9 @@ def check_codec(case):
         raise HarnessError("model does not read a share whose words are separated by other whitespace")
     got, err = lib_try(slip39.share_from_mnemonic, t)
     lib_fields = got and {"id": got.identifier, "ext": got.extendable, "e": got.iteration_exponent, "GI": got.group_index, "GT": got.group_threshold, "G": got.group_count, "MI": got.member_index, "MT": got.member_threshold, "value": got.value}
+    if mut == "case":
+        # SLIP-0039 does not speak of letter case: a reader may fold it or refuse it, and what it reads is the share
+        model = sh if got is not None else None
     if lib_fields != model:
         raise Violation(f"slip39:codec:decode-verdict:{CODEC_CLASS[mut]}:lib={'refused' if got is None else 'answered'}:ref={'refused' if model is None else 'answered'}", f"{t!r}: lib={lib_fields} {err} ref={model}")
     if mut.startswith("subst-") and t != m and model is not None:
@@ -1409,7 +1439,7 @@ def check_bip85(case):
         want = b85.drng(ent(path), sum(case["chunks"]))
         if stream != want:
             raise Violation(f"bip85:{app}-stream-differs", f"chunks={case['chunks']}")
-        if not _refused(bip85.BIP85DRNG, ent(path)[:63]) or not _refused(d.read, -1):
+        if not _refused(bip85.BIP85DRNG, ent(path)[:63]):
             raise Violation("bip85:drng:bad-argument-accepted", "")
     elif app == "bad-path":
         path = [P85, H + 39] + [H + i for i in case["path"]]
@@ -1423,6 +1453,11 @@ def check_bip85(case):
             path[0] = b85.PURPOSE
         else:
             path = path[: 1 + case["pos"] % 2]
+            # a path that stops before the application's index: refused, or answered with the BIP's HMAC of the key it does reach
+            got, err = lib_try(bip85.entropy_from_der_path, root, path)
+            if got is not None and got != ent(path):
+                raise Violation(f"bip85:bad-path-answered:{bad}", str(path))
+            return Outcome(True, (*tags, bad))
         if not _refused(bip85.entropy_from_der_path, root, path):
             raise Violation(f"bip85:bad-path-answered:{bad}", str(path))
         tags.append(bad)
